@@ -1,5 +1,8 @@
 """C07 — binary decoders implement their specifications (DESIGN.md §4 C07).
 
+Violation signatures:  D|<format>|<hex input>|<reference verdict>/<jsoncons outcome>   (DL|<format>|<length>|<crc32>|<first
+bytes>|<class> for inputs > 400 bytes, SAN|<format>|<hex>|crash for a sanitizer report / crash, HANG|<format>|<hex>|hang).
+
 Python explorer + oracle (lib/ref_cbor.py, ref_msgpack.py, ref_ubjson.py, ref_bson.py: reference
 codecs written from the specifications), C++ executor (harness/c07_exec.cpp) that runs the real
 jsoncons decoders.  Everything explored is an explicitly enumerated finite set:
@@ -21,7 +24,8 @@ reference says UNSPEC => abstain (counted).
 """
 import os, re, subprocess, sys, zlib, itertools
 from fractions import Fraction
-from concurrent.futures import ProcessPoolExecutor
+from concurrent.futures import ProcessPoolExecutor, CancelledError
+from concurrent.futures import TimeoutError as FutureTimeout
 from lib import build, runner, mvtext as mv
 from lib import ref_cbor, ref_msgpack, ref_ubjson, ref_bson
 
@@ -542,11 +546,11 @@ def judge(fmt, data, line, ref=None):
                 ok = mv.equal(rv, iv)
             if ok:
                 return "OK/OK:" + rv[0], None, True
-            return "OK/OK-different", "well-formed input decoded to a different value: reference %s, jsoncons %s" % (_rtext(rv), rest[:300]), True
+            return "OK:" + rv[0] + "/OK-different", "well-formed input decoded to a different value: reference %s, jsoncons %s" % (_rtext(rv), rest[:300]), True
         # rejected
         if _beyond_64(rv):
             return "OK-beyond-64-bit/" + kind.strip(), None, True
-        return "OK/" + kind.strip(), "well-formed input rejected: reference value %s, jsoncons: %s" % (_rtext(rv), line[:200]), True
+        return "OK:" + rv[0] + "/" + kind.strip(), "well-formed input rejected: reference value %s, jsoncons: %s" % (_rtext(rv), line[:200]), True
     if ref[0] == "ILL":
         if kind == "OK ":
             return "ILL:" + ref[1] + "/OK", "ill-formed input (%s) decoded to %s" % (ref[1], rest[:300]), False
@@ -572,7 +576,10 @@ def _beyond_64(v):
 def _rtext(v):
     k = v[0]
     if k == 'num':
-        return "num(%s)#%d" % (v[1] if abs(v[1]) < 10 ** 60 else "...", v[2])
+        f = v[1]
+        if f.numerator.bit_length() < 200 and f.denominator.bit_length() < 200:
+            return "num(%s)#%d" % (f, v[2])
+        return "num(~2^%d)#%d" % (f.numerator.bit_length() - f.denominator.bit_length(), v[2])
     if k == 'ts':
         return "timestamp(%d ns)" % v[1]
     if k == 'arr':
@@ -690,7 +697,7 @@ def process(binary, fmt, it, acc, group):
                     acc.count("asan_allocation_limit")
                 else:
                     acc.nviol += 1
-                    sig = "%s|%s|%s" % ("HANG" if line == "HNG" else "SAN", fmt, data.hex())
+                    sig = "%s|%s|%s|%s" % ("HANG" if line == "HNG" else "SAN", fmt, data.hex(), "crash" if line != "HNG" else "hang")
                     if len(acc.viol) < VIOL_CAP:
                         acc.viol[sig] = "decoder %s: %s" % ("did not terminate" if line == "HNG" else "crashed / sanitizer report", line[4:])
                     acc.sets.add(fmt + ":" + ("HANG" if line == "HNG" else "SAN"))
@@ -710,9 +717,9 @@ def process(binary, fmt, it, acc, group):
                 acc.nviol += 1
                 if len(data) > 400:
                     # very long inputs do not fit a signature: name the generator instead
-                    sig = "DL|%s|%d|%08x|%s" % (fmt, len(data), zlib.crc32(data), data[:24].hex())
+                    sig = "DL|%s|%d|%08x|%s|%s" % (fmt, len(data), zlib.crc32(data), data[:24].hex(), cls)
                 else:
-                    sig = "D|%s|%s" % (fmt, data.hex())
+                    sig = "D|%s|%s|%s" % (fmt, data.hex(), cls)
                 if len(acc.viol) < VIOL_CAP or len(data) <= 3:
                     acc.viol.setdefault(sig, detail)
             elif len(acc.samples) < 2 and nontrivial and len(data) > 3:
@@ -794,8 +801,25 @@ def run(tier):
     res = runner.Result()
     res.sum["evaluations"] = 0
     res.sum["nontrivial"] = 0
+    skipped = 0
     with ProcessPoolExecutor(max_workers=runner.NCPU) as ex:
-        for sm, sets, viol, nviol, samples, errors in ex.map(task, tasks, chunksize=1):
+        futs = [ex.submit(task, t) for t in tasks]
+        for f in futs:            # in submission order: deterministic merge
+            while True:
+                try:
+                    out = f.result(timeout=5)
+                    break
+                except FutureTimeout:
+                    if ck.time_left() < 0:
+                        for g in futs:
+                            g.cancel()
+                except CancelledError:
+                    out = None
+                    break
+            if out is None:
+                skipped += 1
+                continue
+            sm, sets, viol, nviol, samples, errors = out
             for k, v in sm.items():
                 res.sum[k] = res.sum.get(k, 0) + v
             res.sets |= set(sets)
@@ -804,6 +828,10 @@ def run(tier):
             res.nviol_total += nviol
             res.samples += samples
             res.errors += errors
+    if skipped:
+        ck.exhaustive = False
+        ck.extra["tasks_not_run_before_deadline"] = skipped
+        sys.stderr.write("warning: C07 deadline reached, %d of %d tasks not run\n" % (skipped, len(tasks)))
     # the empty input, once per format
     acc = Acc()
     for fmt in FORMATS:
@@ -827,10 +855,11 @@ def run(tier):
                "decodes to a value (well-formed JSON-like data)." % (L, 3 if q else 4, "" if q else "(D) every float16 value in every float width. "))
     ck.assumptions = [
         "abstained (counted, not compared): bytes after the first item, CBOR non-text or duplicate map keys, unassigned simple values, tags other "
-        "than 0-5/21-23/32-34/64-86 or on content of the wrong type, nested tags, tag 4/5 on an indefinite-length pair; MessagePack non-str keys, "
-        "ext -1 that is not a 4/8/12-byte timestamp; UBJSON no-op N anywhere, high-precision payloads that are not JSON numbers, '$' with an "
-        "unknown marker on an empty container; BSON undefined/regex/dbpointer/symbol/code-with-scope/timestamp/decimal128/min/max key, binary subtype 2, "
-        "boolean bytes other than 0/1, array element names other than 0,1,2..; duplicate keys in every format",
+        "than 0-5/21-23/32-34/64-75/77-82/84-86 or on content of the wrong type, nested tags, tag 4/5 on an indefinite-length pair or with |exponent| > 5000; "
+        "MessagePack non-str keys, ext -1 that is not a 4/8/12-byte timestamp or has nanoseconds > 999999999; UBJSON no-op N anywhere, high-precision "
+        "payloads that are not JSON numbers, '$' with an unknown marker on an empty container, typed containers of more than 70000 payload-free "
+        "elements (not even executed: 16 million nulls per input); BSON undefined/regex/dbpointer/symbol/code-with-scope/timestamp/decimal128/min/max key, "
+        "binary subtype 2, boolean bytes other than 0/1, array element names other than 0,1,2..; duplicate keys in every format",
         "integers outside [-2^63, 2^64-1] (CBOR major type 1 with argument >= 2^63): an error or a bignum with the exact value is accepted, a wrong "
         "int64 is not",
         "numbers are compared by value (int64 vs uint64 storage and half vs double storage are not part of the statement); bignum / decimal "
@@ -838,6 +867,9 @@ def run(tier):
         "a sanitizer report or crash inside a decoder is reported as a violation (SAN|...); the sanitizer's own allocation-size limit is treated "
         "as a rejection by exception",
         "decode_xxx<json>: objects are compared as maps (json sorts keys)",
+        "a decoded half float is also asked for as_double(): it must be the value its 16 bits denote",
+        "every encoding produced by a reference encoder is decoded again by the reference decoder and must denote the value it came from; the "
+        "reference decoders are checked against the specifications' example vectors at start (a failure is a harness error)",
     ]
     ck.finish(replay)
 
